@@ -14,6 +14,9 @@ PROP = dict(
                        "Comdex.C20.migrate_fresh_id", "Comdex.C20.migrate_shared_counterexample", "Comdex.C20.migrate_shared_id_partial",
                        "Comdex.C20.knownGaps_are_gaps", "Comdex.C20.suspectedGaps_are_gaps", "Comdex.C20.allowList_are_gaps",
                        "Comdex.C20.benign_counters", "Comdex.C20.counter_counterexample", "Comdex.C20.store_counterexample"],
+    # store migrations are not part of the genesis round trip the property speaks about: the migration run is kept as a
+    # measurement (observations M1 / M2 in notes/C20.md, DESIGN.md §7), its monitors never decide the verdict
+    informational_monitors=["migration_*"],
     harness_tests=["TestC20", "TestC20Migrations"],
     # (no `monitors` key: the monitor names are generated per module / prefix / operation — store_roundtrip:<module>.<prefix>,
     #  counter_roundtrip:<module>.<counter>.<rule>, continuation_equal:<op>, custody_roundtrip, import_accepts_export:<module>,
